@@ -89,10 +89,18 @@ func (d DateSpan) ToString() String {
 }
 
 func (d DateSpan) ToDate() Date {
-	d.months += 1
+	// months counts whole months since 0000-01; use floor division so that
+	// negative years yield a month in 1..12 instead of a negative one
+	months := int(d.months)
+	year := months / 12
+	month := months % 12
+	if month < 0 {
+		month += 12
+		year--
+	}
 	date := MakeDate(
-		d.Years(),
-		d.Months(),
+		year,
+		month+1,
 		1,
 	)
 	date = date.AddDateSpan(MakeDateSpan(0, 0, d.Days()))
